@@ -1,5 +1,6 @@
 import itertools
 import logging
+import threading
 
 from bidict import bidict, ValueDuplicationError
 
@@ -18,6 +19,7 @@ class BaseManager:
         self.eio_to_sid = {}
         self.callbacks = {}
         self.pending_disconnect = {}
+        self._pending_disconnect_lock = threading.Lock()
 
     def set_server(self, server):
         self.server = server
@@ -55,8 +57,7 @@ class BaseManager:
         return sid
 
     def is_connected(self, sid, namespace):
-        if namespace in self.pending_disconnect and \
-                sid in self.pending_disconnect[namespace]:
+        if sid in self.pending_disconnect.get(namespace, []):
             # the client is in the process of being disconnected
             return False
         try:
@@ -81,11 +82,23 @@ class BaseManager:
         This allows the client data structures to be present while the
         disconnect handler is invoked, but still recognize the fact that the
         client is soon going away.
+
+        Only one caller can put a given client in the list: ``None`` is
+        returned when the client is not connected anymore, or is already
+        being disconnected by someone else.
         """
-        if namespace not in self.pending_disconnect:
-            self.pending_disconnect[namespace] = []
-        self.pending_disconnect[namespace].append(sid)
-        return self.rooms[namespace][None].get(sid)
+        with self._pending_disconnect_lock:
+            try:
+                eio_sid = self.rooms[namespace][None].get(sid)
+            except KeyError:
+                eio_sid = None
+            if eio_sid is None or \
+                    sid in self.pending_disconnect.get(namespace, []):
+                return None
+            if namespace not in self.pending_disconnect:
+                self.pending_disconnect[namespace] = []
+            self.pending_disconnect[namespace].append(sid)
+            return eio_sid
 
     def basic_disconnect(self, sid, namespace, **kwargs):
         if namespace not in self.rooms:
@@ -98,11 +111,11 @@ class BaseManager:
             self.basic_leave_room(sid, namespace, room)
         if sid in self.callbacks:
             del self.callbacks[sid]
-        if namespace in self.pending_disconnect and \
-                sid in self.pending_disconnect[namespace]:
-            self.pending_disconnect[namespace].remove(sid)
-            if len(self.pending_disconnect[namespace]) == 0:
-                del self.pending_disconnect[namespace]
+        with self._pending_disconnect_lock:
+            if sid in self.pending_disconnect.get(namespace, []):
+                self.pending_disconnect[namespace].remove(sid)
+                if len(self.pending_disconnect[namespace]) == 0:
+                    del self.pending_disconnect[namespace]
 
     def basic_enter_room(self, sid, namespace, room, eio_sid=None):
         if eio_sid is None and namespace not in self.rooms:
